@@ -66,6 +66,23 @@ def bare_connection(I, **attrs):
 
 
 # ------------------------------------------------------------------------------------------
+def replay_default_version():
+    """The default (fallback) version of a real Connection is the chronologically latest allowed one."""
+    sup, idx = minecraft.SUPPORTED_PROTOCOL_VERSIONS, minecraft.PROTOCOL_VERSION_INDICES
+    pre = [p for p in sup if p >= 0x40000000]
+    cases = [None, list(sup), [47, 757], [340, 47]] + ([[757] + pre[-1:], pre[:1] + [498]] if pre else [])
+    for av in cases:
+        k, c = native_call(Connection, 'h', 1, allowed_versions=av)
+        want = max(av if av is not None else sup, key=idx.get)
+        call = 'Connection(allowed_versions=%s)' % ('None' if av is None else '[%d versions incl. %s]' % (len(av), ', '.join(map(str, av[:3]))))
+        if k != 'ok':
+            return dict(confirmed=True, call=call, observed='%s %r' % (k, c))
+        if c.default_proto_version != want or c.context.protocol_version != want:
+            return dict(confirmed=True, call=call, observed='default version %r / context version %r, the latest allowed version in publication '
+                        'order is %r' % (c.default_proto_version, c.context.protocol_version, want))
+    return dict(confirmed=False, call='default version of real Connections', observed='conforms')
+
+
 class InitVersions(Unit):
     prop = 'C09'
     name = 'C09.init.versions'
@@ -127,6 +144,8 @@ class InitVersions(Unit):
         return None
 
     def replay(self, model, label):
+        if 'initial' not in model:
+            return replay_default_version()
         v = int(model.get('initial', 0))
         k, r = native_call(Connection, 'h', 1, initial_version=v)
         ok = (k == 'ok') == (v in minecraft.SUPPORTED_PROTOCOL_VERSIONS)
@@ -145,8 +164,12 @@ class InitVersions(Unit):
             want_ok = name in minecraft.SUPPORTED_MINECRAFT_VERSIONS
             if (k == 'ok') != want_ok or (k == 'ok' and r.allowed_proto_versions != {minecraft.SUPPORTED_MINECRAFT_VERSIONS[name]}):
                 fails.append(dict(call='Connection(allowed_versions={%r})' % name, observed='%s' % k, witness='init-name'))
+        cnt += 1
+        rp = replay_default_version()
+        if rp['confirmed']:
+            fails.insert(0, dict(call=rp['call'], observed=rp['observed'], witness='default-version'))
         return dict(name='C09.init.all-known', evaluations=cnt, failures=fails[:2], exhaustive_for_bound=True,
-                    bound='every known protocol number and every known version name')
+                    bound='every known protocol number and every known version name; default version for six allowed sets')
 
 
 # ------------------------------------------------------------------------------------------
@@ -500,8 +523,13 @@ class StatusQuery(Unit):
 
 
 def c15_units():
-    return [Negotiate()]
+    return [Negotiate(), InitVersions()]      # the fallback and the default version it falls back to
 
 
 def units(tier):
-    return [InitVersions(), Negotiate(), ConnectShape(), StatusQuery()]
+    from . import c10
+    lt = c10.LoginTables()
+    # "followed by a login start": what goes on the wire after the handshake carries the login-start id the specification
+    # gives for the chosen version (0x00, or 0x01 while the plugin packets sat at 0x00: protocols 385..390)
+    lt.prop, lt.name = 'C09', 'C09.login-start.wire-id'
+    return [InitVersions(), Negotiate(), ConnectShape(), StatusQuery(), lt]
